@@ -212,6 +212,24 @@ def eval_two_groups(args):
     finally: shutil.rmtree(d, ignore_errors=True)
 
 
+def eval_forms(args):
+    """the expanded name of a local attribute: in the target namespace iff form="qualified", or no form and attributeFormDefault="qualified" (an explicit form always wins)"""
+    dflt, form, placement, ver = args
+    import xmlschema
+    afd = f' attributeFormDefault="{dflt}"' if dflt else ''; fm = f' form="{form}"' if form else ''
+    attr = f'<xs:attribute name="u" type="xs:int" use="required"{fm}/>'
+    body = attr if placement == 'type' else '<xs:attributeGroup ref="t:G"/>'
+    grp = f'<xs:attributeGroup name="G">{attr}</xs:attributeGroup>' if placement == 'group' else ''
+    s = _cls(ver)(f'<xs:schema {XS} targetNamespace="{T}" xmlns:t="{T}"{afd}>{grp}<xs:element name="e"><xs:complexType>{body}</xs:complexType></xs:element></xs:schema>')
+    qualified = form == 'qualified' or (not form and dflt == 'qualified')
+    bad = []
+    for lex, is_q in (('u="1"', False), ('t:u="1"', True)):
+        exp = is_q == qualified
+        got = s.is_valid(f'<t:e xmlns:t="{T}" {lex}/>')
+        if got != exp: bad.append((lex, got, exp))
+    return dict(args=args, bad=bad) if bad else None
+
+
 def run(tier, seed, open_findings):
     allc = list(configs())
     sel, exhaustive = part(allc, tier, seed, 16)
@@ -232,12 +250,18 @@ def run(tier, seed, open_findings):
     tfail = [dict(case=dict(two_groups=list(r['args'])), observed=[list(b) for b in r['bad'][:4]], required='a type that references two attribute groups admits the intersection of their wildcards') for r in tres if r]
     extra2 = result('C03.two_attribute_groups_intersection', f'{len(tjobs)} schemas: one type referencing two attribute groups with wildcards (5 x 5 constraints under XSD 1.0, 9 x 9 with notNamespace / notQName under XSD 1.1; the second group in the same or in an imported schema) x 6 attribute names',
                     len(tjobs) * 6, tfail, exhaustive=True, samples=[dict(g1='##any', g2='##any notQName=x:foo')], distinct=sum(1 for r in tres if r is not None) * 6)
-    return [extra2, extra, result('C03.attribute_sets', f'{len(sel)} of {len(allc)} (declarations, wildcard, class) configurations x subsets <= 3 of a 7-name pool x 3 values', cases, failures,
+    fjobs = [(d, f, pl, ver) for d in (None, 'unqualified', 'qualified') for f in (None, 'unqualified', 'qualified') for pl in ('type', 'group') for ver in ('1.0', '1.1')]
+    fres = [eval_forms(j) for j in fjobs]
+    ffail = [dict(case=dict(forms=list(r['args'])), observed=[list(b) for b in r['bad']], required='the attribute is in the target namespace iff its form (explicit, else the schema default) is qualified') for r in fres if r]
+    extra3 = result('C03.attribute_forms', f'{len(fjobs)} (attributeFormDefault, form, placement, class) x the qualified and the unqualified spelling of a required local attribute', len(fjobs) * 2, ffail, exhaustive=True)
+    return [extra3, extra2, extra, result('C03.attribute_sets', f'{len(sel)} of {len(allc)} (declarations, wildcard, class) configurations x subsets <= 3 of a 7-name pool x 3 values', cases, failures,
                    exhaustive=exhaustive, samples=[dict(decls={'a': USES[2], 'b': USES[4]}, wildcard=WCS[5], attrs={'a': '7'})],
                    reported={'prohibited-and-wildcard-admits (outside the deciding scope)': exc}, distinct=cases)][::-1]
 
 
 def replay(check_name, case):
+    if 'forms' in case:
+        r = eval_forms(tuple(case['forms'])); return dict(ok=not r, observed=r and r['bad'], required='form decides the namespace of the attribute')
     if 'two_groups' in case:
         r = eval_two_groups(tuple(case['two_groups'])); return dict(ok=not r, observed=r and r['bad'][:4], required='intersection of the two wildcards')
     if 'group_wildcards' in case:
